@@ -33,6 +33,9 @@ A_SRC = {
                      "  subroutine asub2(self)\n    class(base_t) :: self\n  end subroutine asub2\n"
                      "  function afun(x) result(r)\n    !! public function\n    integer :: x, r\n    r = x\n  end function afun\n"
                      "  subroutine hidden_sub()\n  end subroutine hidden_sub\nend module amod\n"),
+    # a facade module that re-exports amod's entities under new names
+    "src/aapi.f90": ("module aapi\n  !! facade of A\n  use amod, only: api_run => asub, api_t => base_t, api_fun => afun\n  implicit none\n  private\n"
+                     "  public :: api_run, api_t, api_fun\nend module aapi\n"),
     "src/utils.f90": "module utils\n  !! A's utils\n  implicit none\n  type :: vec_t\n    real :: x\n  end type vec_t\ncontains\n  subroutine helper()\n  end subroutine helper\nend module utils\n",
 }
 A_PUBLIC = {("amod", "base_t"), ("amod", "asub"), ("amod", "agen"), ("amod", "avar"), ("amod", "afun"),
@@ -45,8 +48,14 @@ B_SRC = {
                      "contains\n  subroutine bsub(c)\n    !! calls A\n    type(child_t) :: c\n    integer :: k\n    call asub(k)\n    k = afun(k)\n    call agen(k)\n    call helper()\n  end subroutine bsub\nend module bmod\n"),
     # B's own utils: must win over A's module of the same name
     "src/utils.f90": "module utils\n  !! B's utils\n  implicit none\n  type :: vec_t\n    real :: y\n  end type vec_t\ncontains\n  subroutine helper()\n    !! B's helper\n  end subroutine helper\nend module utils\n",
+    "src/viaapi.f90": ("module viaapi\n  !! B reaches A through the facade's names\n  use aapi\n  implicit none\n  type(api_t) :: held\ncontains\n"
+                       "  subroutine facade_user(k)\n    integer :: k\n    call api_run(k)\n    k = api_fun(k)\n  end subroutine facade_user\nend module viaapi\n"),
     "src/prog.f90": "program bprog\n  use bmod\n  use amod, only: avar\n  type(child_t) :: c\n  call bsub(c)\nend program bprog\n",
 }
+
+
+REQUIRED_LINKS = [("module/viaapi.html", "type/base_t.html"), ("module/viaapi.html", "module/aapi.html"), ("type/child_t.html", "type/base_t.html"),
+                  ("module/bmod.html", "module/amod.html"), ("module/bmod.html", "proc/asub.html")]
 
 
 def build_A(root, opts):
@@ -67,6 +76,10 @@ def damage(root, fault):
         open(p, "w").write("<html>404 not found</html>")
     elif fault == "wrongshape":
         open(p, "w").write(json.dumps({"something": "else", "modules": [{"unexpected": 1}]}))
+    elif fault == "isdir":
+        os.remove(p)
+        os.makedirs(os.path.join(p, "sub"))
+    # "pathisfile": nothing is damaged; B's option names <A>/doc/index.html (see evaluate)
 
 
 def evaluate(case):
@@ -95,7 +108,7 @@ def evaluate(case):
                             path = urllib.parse.unquote(url.split("#")[0]).lstrip("./")
                             if path and not os.path.exists(os.path.join(adoc, path)):
                                 bad.append(("export-url", f"modules.json gives {m['name']}::{e['name']} the URL {url}, which A's documentation does not contain"))
-            if {m["name"] for m in mods} != {"amod", "utils"}:
+            if {m["name"] for m in mods} != {"amod", "utils", "aapi"}:
                 bad.append(("export-modules", f"modules.json lists modules {sorted(m['name'] for m in mods)}"))
             leaked = listed & A_PRIVATE
             if leaked:
@@ -117,6 +130,8 @@ def evaluate(case):
             ext = f"http://127.0.0.1:{port}/docs/projA"          # a path component and no trailing slash
         else:
             ext = os.path.join(root, "A", "doc") if case["abspath"] else "../A/doc"
+            if case["fault"] == "pathisfile":
+                ext += "/index.html"
         okb, logb, errb = site.run_inproc(os.path.join(root, "B"), {"project": "projB", "external": f"projA = {ext}", "proc_internals": True},
                                           body="Project B, see [[asub]] and [[child_t]].")
         if server is not None:
@@ -164,6 +179,14 @@ def evaluate(case):
                 if re.search(r"/(module/utils|type/vec_t|proc/helper)\.html", tgt):
                     local_utils = False
                     bad.append(("external-over-local", f"{rel}: {url} leads to A although B defines the entity itself"))
+        if case["fault"] == "none":
+            # references B makes to A's entities - also under the names A's facade module gives them - are links into A
+            for rel, tail in REQUIRED_LINKS:
+                pg = site.parse_page(bdoc, rel) if os.path.exists(os.path.join(bdoc, rel)) else None
+                if pg is None:
+                    bad.append(("missing-page", f"B's page {rel} was not written"))
+                elif not any(urllib.parse.urlsplit(u).path.endswith(tail) for _, _, u in pg.links):
+                    bad.append(("missing-external-link", f"{rel} refers to an entity of A but has no link to A's {tail}"))
         if case["fault"] == "none" and ext_links == 0:
             bad.append(("no-external-links", "B refers to A's entities but no link into A's documentation was generated"))
     return bad
